@@ -165,8 +165,11 @@ def run(prog, rep, tier):
     dsv = view(prog, dsk)
     r3.analysed(dsv.name)
     sites = remove_while_indexing(dsv)
-    if not sites:
-        r3.unanalysable("RpkiTable::drop_source: no remove-in-loop site recognised (purge idiom changed)", dsv.loc())
+    retains = [b for b, t in dsv.calls(re.compile(r".*Vec::<T(, A)?>::(retain|retain_mut)$")) if "Roa" in t["f"].get("ga", "")]
+    if not sites and retains:
+        r3.ok("drop_source: the entry lists are purged with Vec::retain (visits every element by construction)")
+    elif not sites:
+        r3.unanalysable("RpkiTable::drop_source: neither a remove-in-loop site nor a Vec::retain over the VRP list was recognised (purge idiom changed)", dsv.loc())
     for rb, il, bad in sites:
         if bad is None:
             r3.ok("drop_source: after Vec::remove(i) the index is not advanced (the next element has moved into slot i)")
